@@ -283,6 +283,10 @@ package httpserver
 //@   loop 1 invariant [inv_not_http] forall(k, len(old(allConfigs)), len(allConfigs), srcNotHTTP(redirSource(allConfigs[k])))
 
 //@ unit recorder frames=on props=C20,C12 filter=`ResponseRecorder\)\.(Write|WriteHeader)$`
+//@ // {size} and {status} are what Write and WriteHeader saw: every other way to the client's writer must be one that writes no
+//@ // body bytes. The methods that reach *ResponseRecorder through its embedded wrapper are exactly these (a WriteString or
+//@ // ReadFrom promoted from the wrapper would carry bytes past the counter):
+//@ type ResponseRecorder promotes Header, Hijack, Flush, CloseNotify, Push
 //@ func (*ResponseRecorder).WriteHeader
 //@   requires r != nil && r.ResponseWriterWrapper != nil
 //@   modifies ResponseRecorder.status
